@@ -14,7 +14,14 @@
    Times are seconds since the epoch (below 2^31).  A lease is its create/renew
    timestamp (the container stores timestamp + 31 days as the expiration time).
    A configuration is [enabled, mode, override, cutoff, types] with override = NoOverride
-   when expire.override_lease_duration is absent. *)
+   when expire.override_lease_duration is absent.
+
+   Cancel secrets.  The crawler removes a lease with cancel_lease(cancel secret), which removes *every*
+   lease of the container that carries that secret.  A share is [id, type, leases, sec]: sec = "distinct"
+   (every lease has a cancel secret of its own - what honest clients produce) or "shared" (all leases of
+   the share carry one cancel secret, renew secrets differ - any client may choose its secrets so).  With
+   a shared secret an expired lease cannot be cancelled without cancelling the valid ones: while the
+   share keeps a valid lease nothing is cancelled; when every lease is expired the share goes. *)
 EXTENDS Common
 
 CONSTANTS Now,        \* the time at which the crawl cycle runs
@@ -36,7 +43,10 @@ LeaseRemovable(cfg, share, renew) == LeaseRemovableAt(cfg, share, renew, Now)
 
 \* the leases a share keeps after process_share (cancel_lease for every removable lease, if enabled)
 LeasesAfterAt(cfg, share, now) ==
-  IF cfg.enabled THEN {r \in share.leases : ~LeaseRemovableAt(cfg, share, r, now)} ELSE share.leases
+  LET valid == {r \in share.leases : ~LeaseRemovableAt(cfg, share, r, now)} IN
+  IF ~cfg.enabled THEN share.leases
+  ELSE IF share.sec = "shared" /\ valid # {} THEN share.leases
+  ELSE valid
 LeasesAfter(cfg, share) == LeasesAfterAt(cfg, share, Now)
 
 \* cancel_lease unlinks the container when no lease is left
@@ -45,7 +55,7 @@ Deleted(cfg, share) == DeletedAt(cfg, share, Now)
 
 \* one crawl cycle over a set of shares: what is left
 CycleAt(cfg, shares, now) ==
-  {[id |-> s.id, type |-> s.type, leases |-> LeasesAfterAt(cfg, s, now)] : s \in {t \in shares : ~DeletedAt(cfg, t, now)}}
+  {[id |-> s.id, type |-> s.type, sec |-> s.sec, leases |-> LeasesAfterAt(cfg, s, now)] : s \in {t \in shares : ~DeletedAt(cfg, t, now)}}
 Cycle(cfg, shares) == CycleAt(cfg, shares, Now)
 
 \* space-recovered counters of the cycle (numbers of shares)
@@ -56,7 +66,7 @@ ActualCount(cfg, shares) == IF cfg.enabled THEN ConfiguredCount(cfg, shares) ELS
 (* ---- C26, stated without the operators above ------------------------------ *)
 \* with expiration disabled nothing is deleted and no lease is removed
 C26_Disabled(cfg, shares, after) ==
-  ~cfg.enabled => after = {[id |-> s.id, type |-> s.type, leases |-> s.leases] : s \in shares}
+  ~cfg.enabled => after = {[id |-> s.id, type |-> s.type, sec |-> s.sec, leases |-> s.leases] : s \in shares}
 
 DocExpired(cfg, r) ==
   \/ cfg.mode = "age" /\ cfg.override = NoOverride /\ r + Duration < Now
